@@ -130,6 +130,7 @@ def reference_loop(t, k, x, y, w, upper, lower, maxfits):
     return fits, masks, None, 'ok'
 
 
+@_bsp.guarded(lambda bad: (bad, 'bad:check-exception', True, None))
 def check_procedure(case):
     """-> (bad, outcome, nontrivial, skip_reason)"""
     k = case['k']
@@ -167,7 +168,11 @@ def check_procedure(case):
                                     'band': 'a rejection decision lies within 1e-6 sigma of a threshold'}[status]
     grid = eval_grid(t, k, x[w > 0])
     B = _bsp.design_for_fit(t, k, grid, 'left')
-    got = curve_of(sset, grid)
+    try:
+        got = curve_of(sset, grid)
+    except Exception as e:
+        bad.append(('iterfit:returned-spline-not-evaluable:%s@%s' % (type(e).__name__, where_raised(e.__traceback__)), repr(e)))
+        return bad, 'bad:not-evaluable', True, None
     nfit = len(fits)
     scale = max(1.0, float(np.max(np.abs(y[w > 0]))))
     tol = 1e-8 * scale
@@ -206,6 +211,7 @@ def check_procedure(case):
     return bad, out, bool(nrej > 0 or np.any(w <= 0)), None
 
 
+@_bsp.guarded(lambda bad: (bad, None))
 def check_order(case, perm, base=None):
     """iterfit on permuted input against iterfit on the sorted input.  base = (grid, curve, mask) of the sorted run."""
     x, y, w = make_data(case)
@@ -238,6 +244,7 @@ def m0_shape(base):
     return base[2].shape
 
 
+@_bsp.guarded(lambda bad: (bad, 'bad:check-exception'))
 def check_weights(case):
     """Only clause (ii): non-positive inverse variance => flagged False (data sets with too few good points)."""
     x, y, w = make_data(case)
